@@ -1,4 +1,5 @@
 import AsyncVerif.Proofs.AggTools
+import AsyncVerif.Proofs.SetDict
 import AsyncVerif.Proofs.FaithfulTools
 /-!
 # C06 — errors from sources/callables surface unchanged where the stdlib would raise
@@ -158,5 +159,11 @@ private def w0 : World :=
     calls := fun _ => 0, cons := .run 0 .exhaust, vis := [], rel := [] }
 
 example : (Impl.filter (some 0) 0 10 w0).1 = .error (.user 7) := by rfl
+
+theorem C06_set (s fuel : Nat) : Faithful (Impl.set s fuel) := by
+  unfold Impl.set Std.set; faith [Std.faithful_setLoop s fuel]
+
+theorem C06_dict (s fuel : Nat) : Faithful (Impl.dict s fuel) := by
+  unfold Impl.dict Std.dict; faith [Std.faithful_dictLoop s fuel]
 
 end AsyncVerif
